@@ -101,3 +101,17 @@ Example C05_skip_string_ex :
   run_cursor dec_skipString_prog [34; 97; 92; 117; 48; 48; 101; 103; 34; 0] = CRErr /\
   run_cursor dec_skipString_prog [34; 97; 10; 34; 0] = CRErr /\ run_cursor dec_skipString_prog [34; 97; 0] = CRErr.
 Proof. vm_compute. repeat split; reflexivity. Qed.
+
+(* the three literal checks of the skip walk and of the typed decoders (validateTrue / validateFalse / validateNull),
+   translated the same way: entered on the first letter they accept exactly when the whole word stands there *)
+Theorem C05_literal_checks_source :
+  dec_validateTrue_prog = validate_true_prog /\ dec_validateFalse_prog = validate_false_prog /\ dec_validateNull_prog = validate_null_prog.
+Proof. repeat split; reflexivity. Qed.
+Theorem C05_literal_checks_are_the_model : forall l,
+  run_cursor dec_validateTrue_prog (116 :: l) = lit_verdict [116; 114; 117; 101] (116 :: l) /\
+  run_cursor dec_validateFalse_prog (102 :: l) = lit_verdict [102; 97; 108; 115; 101] (102 :: l) /\
+  run_cursor dec_validateNull_prog (110 :: l) = lit_verdict [110; 117; 108; 108] (110 :: l).
+Proof.
+  intro l. destruct C05_literal_checks_source as (E1 & E2 & E3). rewrite E1, E2, E3.
+  repeat split; [apply validate_true_is_the_model|apply validate_false_is_the_model|apply validate_null_is_the_model].
+Qed.
